@@ -95,6 +95,38 @@ class Res:
 UNIT = Tup([])
 
 
+class Havoc:
+    """Value of an expression outside the subset, in TOLERANT mode: nothing is known about it. It is turned into a fresh
+    unconstrained variable of the sort the context demands (bool in a condition, the other operand's sort in arithmetic);
+    any other use is Unsupported again. Sound for proofs (the obligation then holds for every value); a refutation that
+    involves a havoc'd value may be spurious and is only reported when it replays on the real code (runner.from_smt)."""
+    def __init__(self, ctx, name):
+        self.ctx, self.name, self.as_ = ctx, name, {}
+        ctx.havocs.append(name)
+
+    def coerce(self, sort, mty=None):
+        if sort not in self.as_:
+            self.as_[sort] = self.ctx.fresh("havoc_" + self.name, sort, mty)
+        return self.as_[sort]
+
+
+class StopExecution(Exception):
+    """Raised by a contract hook to end a prefix run at a designated call."""
+    def __init__(self, payload=None): self.payload = payload
+
+
+def fresh_like(ctx, v, name):
+    """A fresh unconstrained value of the same shape (for variables a skipped statement may have mutated)."""
+    if isinstance(v, T): return ctx.fresh("havoc_" + name, v.sort, getattr(v, "mty", None))
+    if isinstance(v, Vec): return Vec([fresh_like(ctx, c, name) for c in v.c])
+    if isinstance(v, Struct): return Struct(v.name, {k: fresh_like(ctx, x, name + "_" + k) for k, x in v.f.items()})
+    if isinstance(v, Tup): return Tup([fresh_like(ctx, x, name) for x in v.e])
+    if isinstance(v, Arr): return Arr([fresh_like(ctx, x, name) for x in v.e], v.length)
+    if isinstance(v, Opt): return Opt(ctx.fresh("havoc_" + name + "_some", "Bool"), None if v.val is None else fresh_like(ctx, v.val, name))
+    if isinstance(v, Enum): return Enum(v.name, v.variants, ctx.fresh("havoc_" + name, "Int"))
+    return Havoc(ctx, name)
+
+
 def merge(c, a, b):
     if a is b: return a
     if isinstance(a, T) and isinstance(b, T): return Ite(c, a, b)
@@ -118,6 +150,11 @@ def merge(c, a, b):
         return RangeV(Ite(c, a.lo, b.lo), Ite(c, a.hi, b.hi), a.inclusive)
     if a is None: return b
     if b is None: return a
+    if isinstance(a, Havoc) or isinstance(b, Havoc):
+        h = a if isinstance(a, Havoc) else b
+        o = b if h is a else a
+        if isinstance(o, T): return Ite(c, a.coerce(o.sort), o) if h is a else Ite(c, o, b.coerce(o.sort))
+        return h
     if isinstance(a, Closure) and isinstance(b, Closure) and a.node is b.node: return a
     if isinstance(a, SymArr) and a is b: return a
     raise Unsupported("merge of %s and %s" % (type(a).__name__, type(b).__name__))
@@ -156,6 +193,7 @@ class Ctx:
         self.contracts = contracts or {}
         self.inlined = []
         self.file = file
+        self.havocs = []     # names of values replaced by unconstrained ones (tolerant mode)
 
     def fresh(self, base, sort, mty=None):
         self.n += 1
@@ -170,6 +208,7 @@ class Env:
     def __init__(self, ctx, vars=None, pc=TRUE, self_ty=None):
         self.ctx, self.vars, self.pc, self.self_ty = ctx, dict(vars or {}), pc, self_ty
         self.returns = []
+        self.conts = []
 
     def fork(self, pc):
         e = Env(self.ctx, self.vars, pc, self.self_ty)
@@ -184,6 +223,7 @@ class Interp:
     def __init__(self, ctx, consts=None):
         self.ctx = ctx
         self.consts = consts or {}
+        self.tolerant = False
 
     # ---- obligations
     def oblige(self, env, kind, node, cond):
@@ -304,28 +344,49 @@ class Interp:
             vs = self.enums[env.self_ty]
             return Enum(env.self_ty, vs, Const(vs.index(segs[1]), "Int"))
         if segs[-1] == "None": return Opt(FALSE, None)
+        if len(segs) >= 2 and segs[-2] in ("Sign", "Ordering") and segs[-1] in self.SIGN_NAMES:
+            return ("signconst", segs[-1])
+        if len(segs) == 2 and segs[0] == "f64" and segs[1] in self.F64_CONSTS:
+            return Const(self.F64_CONSTS[segs[1]], "Real")
         raise Unsupported("path %s at %s" % (key, site(n)))
+
+    SIGN_NAMES = ("Less", "Equal", "Greater", "Minus", "NoSign", "Plus")
+    # exactly representable f64 constants (A-REAL reads them as the rationals they denote)
+    F64_CONSTS = {"EPSILON": tm.Fraction(1, 2 ** 52), "MIN_POSITIVE": tm.Fraction(1, 2 ** 1022), "MAX": tm.Fraction((2 ** 53 - 1) * 2 ** 971)}
+
+    @staticmethod
+    def sign_cond(x, name):
+        """A-BIG / std: the Ordering of x against 0 (Sign of a big integer) as a formula."""
+        z = Const(0, x.sort)
+        return {"Less": Lt(x, z), "Equal": Eq(x, z), "Greater": Gt(x, z), "Minus": Lt(x, z), "NoSign": Eq(x, z), "Plus": Gt(x, z)}[name]
 
     enums = {"Dimensionality": ["OneD", "TwoD", "ThreeD"]}
 
     def ev_bin(self, env, n):
         op = n["op"]
+        B = lambda v: v.coerce("Bool") if isinstance(v, Havoc) else v
         if op == "&&":
-            a = self.ev(env, n["l"])
+            a = B(self.ev(env, n["l"]))
             sub = env.fork(And(env.pc, a))
-            b = self.ev(sub, n["r"])
+            b = B(self.ev(sub, n["r"]))
             return And(a, b)
         if op == "||":
-            a = self.ev(env, n["l"])
+            a = B(self.ev(env, n["l"]))
             sub = env.fork(And(env.pc, Not(a)))
-            b = self.ev(sub, n["r"])
+            b = B(self.ev(sub, n["r"]))
             return Or(a, b)
         a, b = self.ev(env, n["l"]), self.ev(env, n["r"])
+        if isinstance(a, Havoc) and isinstance(b, T): a = a.coerce(b.sort, getattr(b, "mty", None))
+        if isinstance(b, Havoc) and isinstance(a, T): b = b.coerce(a.sort, getattr(a, "mty", None))
         if op in ("+", "-", "*", "/", "%"): return self.arith(env, n, op, a, b)
         if op in ("==", "!=", "<", "<=", ">", ">="):
             if isinstance(a, Enum) and isinstance(b, Enum):
                 r = Eq(a.tag, b.tag)
                 return r if op == "==" else Not(r)
+            for u_, w_ in ((a, b), (b, a)):
+                if isinstance(u_, tuple) and u_[0] == "sign" and isinstance(w_, tuple) and w_[0] == "signconst" and op in ("==", "!="):
+                    r = self.sign_cond(u_[1], w_[1])
+                    return r if op == "==" else Not(r)
             if not (isinstance(a, T) and isinstance(b, T)): raise Unsupported("compare non-scalars at %s" % site(n))
             return {"==": Eq, "!=": tm.Ne, "<": Lt, "<=": Le, ">": Gt, ">=": Ge}[op](a, b)
         raise Unsupported("binary " + op)
@@ -334,6 +395,7 @@ class Interp:
         v = self.ev(env, n["e"])
         if n["op"] == "*": return v
         if n["op"] == "!":
+            if isinstance(v, Havoc): v = v.coerce("Bool")
             if isinstance(v, T) and v.sort == "Bool": return Not(v)
             raise Unsupported("! on non-bool")
         if n["op"] == "-":
@@ -418,6 +480,7 @@ class Interp:
             c = self.match_pat(env, cnode["pat"], scrut, binds)
         else:
             c = self.ev(env, cnode)
+            if isinstance(c, Havoc): c = c.coerce("Bool")
             if not (isinstance(c, T) and c.sort == "Bool"): raise Unsupported("if cond")
         ea = env.fork(And(env.pc, c)); ea.vars.update(binds)
         va = self.exec_block(ea, n["then"])
@@ -428,6 +491,7 @@ class Interp:
 
     def join(self, env, c, ea, va, eb, vb):
         env.returns += ea.returns + eb.returns
+        env.conts += ea.conts + eb.conts
         if ea.pc is FALSE and eb.pc is FALSE:
             env.pc = FALSE
             return va if va is not None else vb
@@ -478,6 +542,7 @@ class Interp:
             cur_env, cur_val = holder, val
         env.vars, env.pc = cur_env.vars, cur_env.pc
         env.returns += cur_env.returns
+        env.conts += cur_env.conts
         return cur_val
 
     # ---- patterns: returns match condition, fills binds
@@ -514,11 +579,8 @@ class Interp:
                 return v.is_(name)
             if isinstance(v, tuple) and v[0] == "sign":
                 # A-BIG: sign() of the big-integer back end (malachite: Ordering, num_bigint: Sign)
-                z = Const(0, "Int")
-                table = {"Less": Lt(v[1], z), "Equal": Eq(v[1], z), "Greater": Gt(v[1], z),
-                         "Minus": Lt(v[1], z), "NoSign": Eq(v[1], z), "Plus": Gt(v[1], z)}
-                if name not in table: raise Unsupported("sign pattern " + name)
-                return table[name]
+                if name not in self.SIGN_NAMES: raise Unsupported("sign pattern " + name)
+                return self.sign_cond(v[1], name)
             raise Unsupported("path pattern " + name)
         if k == "por":
             conds = []
@@ -591,7 +653,65 @@ class Interp:
         assert seq[0] == ("p", "("); pos[0] = 1
         return pred()
 
+    TOLERATED = (Unsupported, AttributeError, TypeError, KeyError, IndexError)
+
+    def snapshot(self, env):
+        c = self.ctx
+        return (dict(env.vars), env.pc, len(env.returns), len(env.conts), len(c.assume), len(c.obls), len(c.ok), len(c.panics))
+
+    def restore(self, env, snap):
+        c = self.ctx
+        env.vars, env.pc = dict(snap[0]), snap[1]
+        del env.returns[snap[2]:]; del env.conts[snap[3]:]
+        del c.assume[snap[4]:]; del c.obls[snap[5]:]; del c.ok[snap[6]:]; del c.panics[snap[7]:]
+
+    def mutated_roots(self, node):
+        """Variables a statement can mutate: assignment targets, `&mut x..` borrows, method-call receivers (conservative)."""
+        from . import extract
+        roots = set()
+        def root(e):
+            while isinstance(e, dict):
+                k = e.get("k")
+                if k == "path": return e["segs"][0] if len(e["segs"]) == 1 else None
+                if k in ("field", "index", "paren", "ref", "un"): e = e.get("e")
+                elif k == "mcall": e = e.get("recv")
+                else: return None
+            return None
+        for m in extract.find_nodes(node, lambda x: x.get("k") in ("assign", "opassign")): roots.add(root(m["l"]))
+        for m in extract.find_nodes(node, lambda x: x.get("k") == "ref" and x.get("mut")): roots.add(root(m["e"]))
+        for m in extract.find_nodes(node, lambda x: x.get("k") == "mcall"): roots.add(root(m["recv"]))
+        for m in extract.find_nodes(node, lambda x: x.get("k") == "macro"):
+            # vec!/assert!/.. take expressions (parsed by vx, so nested assignments are seen above); any other macro is an unknown token tree
+            if m["name"] not in ("vec", "assert", "assert_eq", "assert_ne", "debug_assert", "debug_assert_eq", "debug_assert_ne", "panic", "unreachable",
+                                 "println", "eprintln", "format", "write", "writeln", "dbg", "flatten", "todo", "unimplemented", "matches"):
+                roots.add("*")
+        roots.discard(None)
+        return roots
+
     def exec_stmt(self, env, s, last=False):
+        if not self.tolerant: return self.exec_stmt_strict(env, s, last)
+        snap = self.snapshot(env)
+        try:
+            return self.exec_stmt_strict(env, s, last)
+        except StopExecution:
+            raise
+        except self.TOLERATED as ex:
+            self.restore(env, snap)
+            from . import extract
+            k = s["k"]
+            if k == "let":
+                names = [q["name"] for q in extract.find_nodes(s["pat"], lambda x: x.get("k") == "pident")]
+                roots = self.mutated_roots(s["init"]) if s.get("init") is not None else set()
+                for nm in names: env.vars[nm] = Havoc(self.ctx, nm)
+            else:
+                roots = self.mutated_roots(s)
+            if "*" in roots: roots = set(env.vars)
+            for r_ in roots:
+                if r_ in env.vars and not isinstance(env.vars[r_], (Closure, SymArr)): env.vars[r_] = fresh_like(self.ctx, env.vars[r_], r_)
+            self.ctx.havocs.append("stmt@%d-%d: %s" % (s["sp"][0], s["sp"][1], str(ex)[:80]))
+            return UNIT
+
+    def exec_stmt_strict(self, env, s, last=False):
         k = s["k"]
         if k == "let":
             if not self.attr_enabled(s.get("attrs")): return UNIT
@@ -658,6 +778,24 @@ class Interp:
         env.vars[root] = self.update(env.vars[root], path, v)
         return UNIT
 
+    def ev_continue(self, env, n):
+        """`continue`: this path leaves the loop body; recorded in env.conts and re-joined by the enclosing unrolled loop
+        (for a loop-body slice it simply ends the slice, like `return` ends the function)."""
+        if n.get("label"): raise Unsupported("labelled continue")
+        env.conts.append((env.pc, dict(env.vars)))
+        env.pc = FALSE
+        return None
+
+    def rejoin_continues(self, env, mark):
+        """After one unrolled iteration: paths that hit `continue` resume here with the variables they had."""
+        mine, env.conts = env.conts[mark:], env.conts[:mark]
+        for pc_c, vars_c in mine:
+            if env.pc is FALSE:
+                env.vars, env.pc = {k: v for k, v in vars_c.items() if k in env.vars or True}, pc_c
+                continue
+            env.vars = {k: merge(pc_c, vars_c[k], env.vars[k]) for k in env.vars if k in vars_c}
+            env.pc = Or(env.pc, pc_c)
+
     def ev_return(self, env, n):
         v = self.ev(env, n["e"]) if n["e"] is not None else UNIT
         env.returns.append((env.pc, v))
@@ -677,7 +815,9 @@ class Interp:
             hi_v = hi.args[0] + (1 if r.inclusive else 0)
             for i in range(lo.args[0], hi_v):
                 if n["pat"]["k"] == "pident": env.vars[n["pat"]["name"]] = Const(i, "Int", "usize")
+                mark = len(env.conts)
                 self.exec_block(env, n["body"])
+                self.rejoin_continues(env, mark)
             return UNIT
         # bounds that are case distinctions of literals: iterate over the hull, each iteration guarded by lo <= i (<|<=) hi
         ll, hl = const_leaves(lo), const_leaves(hi)
@@ -688,6 +828,7 @@ class Interp:
             ea = env.fork(And(env.pc, c))
             if n["pat"]["k"] == "pident": ea.vars[n["pat"]["name"]] = ci
             self.exec_block(ea, n["body"])
+            self.rejoin_continues(ea, 0)
             if n["pat"]["k"] == "pident":
                 if n["pat"]["name"] in env.vars: ea.vars[n["pat"]["name"]] = env.vars[n["pat"]["name"]]
                 else: ea.vars.pop(n["pat"]["name"], None)
@@ -726,7 +867,7 @@ class Interp:
             if isinstance(fv, Closure): return self.call_closure(env, fv, [self.ev(env, a) for a in n["args"]])
             raise Unsupported("call of non-path")
         segs = f["segs"]
-        args = [self.ev(env, a) for a in n["args"]]
+        args = [self.ev_arg(env, a) for a in n["args"]]
         if len(segs) == 1 and isinstance(env.vars.get(segs[0]), Closure):
             return self.call_closure(env, env.vars[segs[0]], args)
         name = "::".join(segs)
@@ -745,6 +886,19 @@ class Interp:
             a = args[0]
             return a if tm.is_const(a) else tm.Retag(a, "big")
         return self.call_user(env, n, name, args)
+
+    def ev_arg(self, env, a):
+        """Call argument; in tolerant mode an argument outside the subset becomes a Havoc value (the call itself may still be
+        resolvable through a contract hook that does not look at it)."""
+        if not self.tolerant: return self.ev(env, a)
+        snap = self.snapshot(env)
+        try:
+            return self.ev(env, a)
+        except StopExecution:
+            raise
+        except self.TOLERATED:
+            self.restore(env, snap)
+            return Havoc(self.ctx, "arg")
 
     def call_closure(self, env, cl, args):
         sub = Env(self.ctx, cl.env.vars, env.pc, cl.env.self_ty)
@@ -810,7 +964,7 @@ class Interp:
                 if recv.val is None: return Opt(FALSE, None)
                 sub = env.fork(And(env.pc, recv.some))
                 return Opt(recv.some, self.call_closure(sub, cl, [recv.val]))
-        args = [self.ev(env, a) for a in n["args"]]
+        args = [self.ev_arg(env, a) for a in n["args"]]
         if isinstance(recv, RangeV) and m == "clone": return recv
         if isinstance(recv, Vec): return self.vec_method(env, n, recv, m, args)
         if isinstance(recv, Mat):
@@ -908,6 +1062,11 @@ class Interp:
             if m in ("clone", "into", "value"): return x
             if m == "sign": return ("sign", x)
             if m == "abs": return tm.Abs(x)
+            if m == "cmp" and len(a) == 1 and isinstance(a[0], T) and a[0].sort == "Int": return ("sign", x - a[0])   # Ord::cmp (A-BIG / std)
+            if m == "partial_cmp" and len(a) == 1 and isinstance(a[0], T) and a[0].sort == "Int": return Opt(TRUE, ("sign", x - a[0]))
+            if m == "is_positive": return Gt(x, Const(0, "Int"))
+            if m == "is_negative": return Lt(x, Const(0, "Int"))
+            if m == "is_zero": return Eq(x, Const(0, "Int"))
         if x.sort == "Bool":
             if m == "clone": return x
         raise Unsupported("scalar method %s on %s" % (m, x.sort))
